@@ -35,18 +35,19 @@ type attemptScript struct {
 }
 
 type caseSpec struct {
-	method  string
-	target  string
-	headers [][2]string
-	body    []byte
-	chunked bool
-	chunks  []int // raw client only
-	thr     int64
-	thrSet  bool
-	retries int
-	script  []attemptScript
-	verbose bool // buffer.Verbose(true) with a logger
-	noBound bool // retry expression without an Attempts() bound: the middleware's own maximum ends the loop
+	method       string
+	target       string
+	headers      [][2]string
+	body         []byte
+	chunked      bool
+	chunks       []int // raw client only
+	thr          int64
+	thrSet       bool
+	retries      int
+	script       []attemptScript
+	verbose      bool // buffer.Verbose(true) with a logger
+	noBound      bool // retry expression without an Attempts() bound: the middleware's own maximum ends the loop
+	methodInExpr bool // the retry expression also consults RequestMethod()
 }
 
 var methods = []string{"POST", "PUT", "PATCH", "GET", "DELETE", "POST"}
@@ -61,6 +62,7 @@ func maxBody() int {
 func genCase(t *rapid.T, raw bool) *caseSpec {
 	c := &caseSpec{}
 	c.method = rapid.SampledFrom(methods).Draw(t, "method")
+	c.methodInExpr = rapid.Bool().Draw(t, "methodInExpr")
 	c.target = "/" + rapid.StringMatching(`[a-z]{0,6}(/[a-z0-9%]{0,4})?`).Draw(t, "path")
 	c.target = strings.ReplaceAll(c.target, "%", "%41")
 	if rapid.Bool().Draw(t, "hasQuery") {
@@ -291,10 +293,15 @@ func makeHandlers(t *rapid.T, c *caseSpec) (http.Handler, *result) {
 	if c.thrSet {
 		opts = append(opts, buffer.MemRequestBodyBytes(c.thr))
 	}
+	// half of the expressions also look at the request method (a conjunct that is always true)
+	methodTerm := ""
+	if c.methodInExpr {
+		methodTerm = ` && RequestMethod() != "TRACE"`
+	}
 	if c.noBound {
-		opts = append(opts, buffer.Retry("IsNetworkError()"))
+		opts = append(opts, buffer.Retry("IsNetworkError()"+methodTerm))
 	} else if c.retries > 0 {
-		opts = append(opts, buffer.Retry(fmt.Sprintf("IsNetworkError() && Attempts() <= %d", c.retries)))
+		opts = append(opts, buffer.Retry(fmt.Sprintf("IsNetworkError() && Attempts() <= %d%s", c.retries, methodTerm)))
 	}
 	if c.verbose {
 		opts = append(opts, buffer.Verbose(true), buffer.Logger(formatLogger{}))
@@ -431,6 +438,9 @@ func TestC06_InProcess(t *testing.T) {
 			}
 			req.Body = seekBody{rd}
 			how = "in-process, seekable body positioned after a preamble"
+		case 2: // the method left empty (net/http reads that as GET; the handler sees what the caller built, every time)
+			req.Method = ""
+			how = "in-process, method left empty"
 		case 1: // length left at 0 by a caller that does not know it, body present nevertheless
 			if len(c.body) > 0 && !c.chunked {
 				req.ContentLength = 0
